@@ -23,6 +23,7 @@ hypothesis of the proof) and `_cache` by a gated dict subclass; Cache.get / Cach
 Loader.get_pipeline themselves are the unmodified code from the repo.
 """
 import threading
+import types
 
 TIMEOUT = 20.0
 
@@ -46,6 +47,7 @@ class Ctl:
         self.lock_owner = None
         self.cur = [None] * n   # current request (parent, name) of each thread
         self.anomalies = []
+        self.attr = None        # cached item = this attribute of the created module (step / back-off targets)
 
     # ---- worker side
     def tid(self):
@@ -73,6 +75,8 @@ class Ctl:
     def idx(self, o):
         for i, x in enumerate(self.objs):
             if x is o or getattr(o, 'pipeline', None) is x:
+                return i
+            if self.attr is not None and getattr(x, self.attr, None) is o:
                 return i
         return -1
 
@@ -178,6 +182,36 @@ class CreatorFailed(Exception):
     pass
 
 
+def _fresh_fn():
+    def f(*a, **k):
+        return None
+    return f
+
+
+def gated_backoff_cache(ctl):
+    """The real BackoffCache, whose clear() REBINDS self._cache to a fresh dict: `_cache` becomes a
+    property of a harness subclass so that every dict the cache ever binds is a gated CtlDict and the
+    rebinding itself is the gated 'clearall' instruction.  get / clear / get_backoff are the
+    repository's code."""
+    from pypyr.cache.backoffcache import BackoffCache
+
+    class GatedBackoffCache(BackoffCache):
+        def _get(self):
+            return self.__dict__['_c13_dict']
+
+        def _set(self, value):
+            t = getattr(ctl.local, 't', None)
+            if t is not None:
+                ctl.gate('clearall')
+            d = CtlDict(ctl)
+            dict.update(d, value)
+            self.__dict__['_c13_dict'] = d
+            if t is not None:
+                ctl.ev('clear', t)
+        _cache = property(_get, _set)
+    return GatedBackoffCache()
+
+
 def run_schedule(case):
     """case: {'target': 'cache'|'loader', 'nc': bool, 'progs': [[op..]..], 'sched': [t..]}
     op = ['get', parent|None, name, ok] | ['clear'].  Returns the observation."""
@@ -185,7 +219,9 @@ def run_schedule(case):
     from pypyr.cache.loadercache import Loader
     from pypyr.config import config
     from pypyr.pipedef import PipelineDefinition
+    import pypyr.moduleloader as ml
 
+    saved_get_module = ml.get_module
     progs = case['progs']
     n = len(progs)
     ctl = Ctl(n)
@@ -204,6 +240,12 @@ def run_schedule(case):
             bad = [[1, 2], 'steps', None, 7][nbad[0] % 4]
             c.ev('failed', t, c.cur[t])
             return PipelineDefinition(pipeline=bad, info=None) if nbad[0] % 3 == 0 else bad
+        if okflag[t] and case['target'] in ('backoff', 'step'):
+            o = types.SimpleNamespace()
+            setattr(o, c.attr, _fresh_fn())
+            c.objs.append(o)
+            c.ev('created', t, c.cur[t], len(c.objs) - 1)
+            return o
         if okflag[t] is True:
             # half of the loader's creations are bare mappings (the Loader wraps them)
             raw = {'steps': [], 'n': len(c.objs)}
@@ -226,6 +268,24 @@ def run_schedule(case):
 
         def do_clear():
             loader.clear()
+    elif case['target'] in ('backoff', 'step'):
+        # the REAL StepCache / BackoffCache; their creators import a module: substitute the importer
+        ml.get_module = lambda name: make(ctl.tid())
+        if case['target'] == 'step':
+            from pypyr.cache.stepcache import StepCache
+            ctl.attr = 'run_step'
+            cache = StepCache()
+            getter = cache.get_step
+        else:
+            ctl.attr = 'Strategy'
+            cache = gated_backoff_cache(ctl)
+            getter = lambda name: cache.get_backoff(name + '.Strategy')  # noqa
+
+        def do_get(t, parent, name):
+            return getter(name)
+
+        def do_clear():
+            cache.clear()
     else:
         cache = Cache()
 
@@ -234,9 +294,10 @@ def run_schedule(case):
 
         def do_clear():
             cache.clear()
-    assert type(cache) is Cache
     cache._lock = CtlLock(ctl)
-    cache._cache = CtlDict(ctl)
+    if case['target'] != 'backoff':
+        assert '_cache' in vars(cache)
+        cache._cache = CtlDict(ctl)
 
     def worker(t):
         ctl.local.t = t
@@ -291,6 +352,7 @@ def run_schedule(case):
         for th in threads:
             th.join(TIMEOUT)
         config.no_cache = saved
+        ml.get_module = saved_get_module
     return {'events': ctl.events, 'status': status, 'unfinished': unfinished,
             'anomalies': ctl.anomalies, 'n_objs': len(ctl.objs), 'blocked_steps': blocked,
-            'final_keys': sorted(repr(k) for k in dict.keys(cache._cache))}
+            'final_keys': sorted(repr(k) for k in dict.keys(cache._cache))[:20]}
